@@ -670,6 +670,137 @@ theorem mdr_promoteStep_md (hR : MRRootTail cfg.T rs) (m1 : OMap r) (s1 : MHSt r
       rw [h2]
       exact ⟨s1, xh, h1, rfl, rfl, ⟨hh, MRStep.refl _ _, hnd, hhd⟩, Or.inl rfl⟩
 
+/-- `OMap.remove`, unfolded -/
+theorem mdr_OMap_remove_eq (m : OMap r) (c : Ctx) :
+    OMap.remove cfg m k c =
+      match MTree.remove cfg m.d m.root k c with
+      | .error e => .error e
+      | .ok (rk, rv, root', c1) =>
+        let q := ({ m with root := root', count := m.count - 1 } : OMap r).promoteIfSingleChild c1
+        if MTree.isFull cfg.T q.1.d q.1.root then
+          match q.1.splitRoot q.2 with
+          | .error e => .error e
+          | .ok (m3, c3) => .ok (rk, rv, m3, c3)
+        else .ok (rk, rv, q.1, q.2) := by
+  simp only [OMap.remove, OMap.splitRootIfFull, bind, Except.bind, pure, Except.pure]
+  cases MTree.remove cfg m.d m.root k c with
+  | error e => rfl
+  | ok q =>
+    obtain ⟨rk, rv, root', c1⟩ := q
+    simp only []
+    cases hf : MTree.isFull cfg.T (({ m with root := root', count := m.count - 1 } : OMap r).promoteIfSingleChild c1).1.d
+        (({ m with root := root', count := m.count - 1 } : OMap r).promoteIfSingleChild c1).1.root with
+    | false => simp only [Bool.false_eq_true, if_false]
+    | true =>
+      simp only [if_true]
+      cases (({ m with root := root', count := m.count - 1 } : OMap r).promoteIfSingleChild c1).1.splitRoot
+          (({ m with root := root', count := m.count - 1 } : OMap r).promoteIfSingleChild c1).2 with
+      | error e => rfl
+      | ok q3 => rfl
+
+/-- the tail of the generated `OrderedMap.remove` after `decrementCount`, on the in-memory handle `M` -/
+def mdr_topTail (T : Nat) (rk rv : Option SV) (M : DMap r) : Option (Option SV × Option SV × Option GE × DMap r) :=
+  let pr := mdr_promoteStep rs M
+  if (!pr.1.isNone) then some (none, none, pr.1, pr.2)
+  else
+    match MapSlab_IsFull (envD T eb rs) pr.2.root with
+    | none => none
+    | some true =>
+      let q := rs.splitRoot pr.2
+      if (!q.1.isNone) then some (none, none, q.1, q.2) else some (rk, rv, none, q.2)
+    | some false => some (rk, rv, none, pr.2)
+
+/-- THE WHOLE `OrderedMap.remove` over a heap, for ANY `rs` satisfying the three tails: on a handle whose tree the heap
+    holds, the generated code is the translation of the model's `OMap.remove`: removed key / value, the new handle
+    `md_map m' s'`, the model's `Ctx`, the heap holds the new tree, `MRStep` from the old tree's identifiers to the new
+    tree's.  The STORED root record carries the extra data `xh`: the new handle's after a promotion / root split, but the
+    OLD one (`md_extra m`: count not decremented) on the plain path - Go's `decrementCount` mutates the slab the storage
+    already points to, no `Store` follows; in a heap of VALUES the stored copy is stale.
+    A model error comes back as that error; with `md_map m s` unchanged (count untouched) when it is the tree's
+    `Remove` that failed outside a restructuring call. -/
+theorem Ob_OrderedMap_remove_heap_of_tails (hE : ElemsSpec cfg k v P eb) (hP : ∀ g, P g) (hS : MRSplitTail cfg.T rs)
+    (hM : MRMorTail cfg.T rs) (hR : MRRootTail cfg.T rs) (hmax : maxThr cfg.T < 2^32) (hmin : minThr cfg.T < 2^32)
+    (hk : k.dig 0 < 2^64) (m : OMap r) (s : MHSt r) (depth : Nat) (hd : m.d ≤ depth)
+    (hwf : mdr_WF m.d m.root (some (md_extra m))) (hnd : (md_ids m.d m.root).Nodup)
+    (hh : MHolds s.heap m.d m.root (some (md_extra m))) (hsz : mdr_Sizes cfg k m.d m.root s.ctx) (hcnt : 0 < m.count)
+    (hszTop : ∀ rk rv root' c1, MTree.remove cfg m.d m.root k s.ctx = .ok (rk, rv, root', c1) →
+      (MTree.hdr _ (({ m with root := root', count := m.count - 1 } : OMap r).promoteIfSingleChild c1).1.root).size < 2^32) :
+    match OMap.remove cfg m k s.ctx with
+    | .ok (rk, rv, m', c') =>
+      ∃ s' xh, OrderedMap_remove (envD cfg.T eb rs) depth (md_map m s) (.key k) =
+          some (some (.key rk), some (.val rv), none, md_map m' s') ∧
+        s'.ctx = c' ∧ s'.popped = s.popped ∧ MRRootPost s.heap s'.heap m m' xh ∧
+        (xh = some (md_extra m) ∨ xh = some (md_extra m'))
+    | .error e =>
+      ∃ M, OrderedMap_remove (envD cfg.T eb rs) depth (md_map m s) (.key k) = some (none, none, some e, M) ∧
+        (mdr_ErrClean cfg k m.d m.root s.ctx → (∃ e', MTree.remove cfg m.d m.root k s.ctx = .error e') → M = md_map m s) := by
+  have htree := Ob_MapSlab_Remove_heap_of_tails eb rs cfg k v P hE hP hS hM hmax hmin hk m.d m.root (some (md_extra m)) s depth
+    hd hwf hnd hh hsz
+  rw [mdr_OMap_remove_eq]
+  cases hq : MTree.remove cfg m.d m.root k s.ctx with
+  | error e =>
+    rw [hq] at htree
+    obtain ⟨tt, ss, hdisp, hclean⟩ := htree
+    refine ⟨{ Storage := ss, root := tt, digesterBuilder := () }, ?_, ?_⟩
+    · exact Ob_OrderedMap_remove_err cfg.T eb rs (md_map m s) k depth tt ss none none e hdisp
+    · intro hcl _
+      obtain ⟨h1, h2⟩ := hclean hcl
+      rw [h1, h2]; rfl
+  | ok q =>
+    obtain ⟨rk, rv, root', c1⟩ := q
+    rw [hq] at htree
+    obtain ⟨s1, hdisp, hctx1, hpop1, hpost1⟩ := htree
+    have hsize := hszTop rk rv root' c1 hq
+    have hstep : OrderedMap_remove (envD cfg.T eb rs) depth (md_map m s) (.key k) =
+        mdr_topTail eb rs cfg.T (some (.key rk)) (some (.val rv))
+          (md_map ({ m with root := root', count := m.count - 1 } : OMap r) s1) :=
+      Ob_OrderedMap_remove_step_md cfg.T eb rs m s k depth m.d root' s1 _ _ hcnt hdisp
+    obtain ⟨s2, xh2, hprom, hctx2, hpop2, hpost2, hxh2⟩ := mdr_promoteStep_md rs cfg hR
+      ({ m with root := root', count := m.count - 1 } : OMap r) s1 (some (md_extra m)) hpost1.holds hpost1.nodup hpost1.hdrs
+    rw [hctx1] at hprom hctx2 hpost2 hxh2
+    have hstep1 : MRStep s.heap s2.heap (md_ids m.d m.root)
+        (md_ids (({ m with root := root', count := m.count - 1 } : OMap r).promoteIfSingleChild c1).1.d
+          (({ m with root := root', count := m.count - 1 } : OMap r).promoteIfSingleChild c1).1.root) :=
+      hpost1.step.trans hpost2.step
+    obtain ⟨pq, hpq⟩ : ∃ pq, pq = ({ m with root := root', count := m.count - 1 } : OMap r).promoteIfSingleChild c1 :=
+      ⟨_, rfl⟩
+    simp only []
+    rw [← hpq]
+    rw [← hpq] at hprom hctx2 hpost2 hxh2 hsize hstep1
+    obtain ⟨m2, c2⟩ := pq
+    simp only [] at hprom hctx2 hpost2 hxh2 hsize hstep1 ⊢
+    have hIF : MapSlab_IsFull (envD cfg.T eb rs) (md_map m2 s2).root = some (MTree.isFull cfg.T m2.d m2.root) :=
+      mdr_isFull_md_tree cfg.T eb rs m2.d m2.root _ hsize hmax
+    cases hfull : MTree.isFull cfg.T m2.d m2.root with
+    | false =>
+      simp only [Bool.false_eq_true, if_false]
+      refine ⟨s2, xh2, ?_, hctx2, by rw [hpop2, hpop1], ⟨hpost2.holds, hstep1, hpost2.nodup, hpost2.hdrs⟩, hxh2⟩
+      rw [hstep]
+      simp only [mdr_topTail, hprom, Option.isNone_none, Bool.not_true, Bool.false_eq_true, if_false, hIF, hfull]
+    | true =>
+      simp only [if_true]
+      have ht := hR.2 m2 s2 xh2 hpost2.holds hpost2.nodup hpost2.hdrs hsize hfull
+      rw [hctx2] at ht
+      cases hsp : m2.splitRoot c2 with
+      | error e =>
+        rw [hsp] at ht
+        obtain ⟨M, hcall⟩ := ht
+        refine ⟨M, ?_, ?_⟩
+        · rw [hstep]
+          simp only [mdr_topTail, hprom, Option.isNone_none, Bool.not_true, Bool.false_eq_true, if_false, hIF, hfull, hcall,
+            Option.isNone_some, Bool.not_false, if_true]
+        · intro _ h
+          obtain ⟨e', he'⟩ := h
+          cases he'
+      | ok q3 =>
+        obtain ⟨m3, c3⟩ := q3
+        rw [hsp] at ht
+        obtain ⟨s3, hcall, hctx3, hpop3, hpost3⟩ := ht
+        refine ⟨s3, _, ?_, hctx3, by rw [hpop3, hpop2, hpop1],
+          ⟨hpost3.holds, hstep1.trans hpost3.step, hpost3.nodup, hpost3.hdrs⟩, Or.inr rfl⟩
+        rw [hstep]
+        simp only [mdr_topTail, hprom, Option.isNone_none, Bool.not_true, Bool.false_eq_true, if_false, hIF, hfull, hcall]
+
 end top
 
 end Atree.TransEq
